@@ -275,6 +275,21 @@ impl BaseBindingsGenerator for ZodBindingsGenerator {
         analyzer: &CommandAnalyzer,
         config: &GenerateConfig,
     ) -> Result<Vec<String>, Box<dyn std::error::Error>> {
+        // A type covered by a type mapping is rendered as its mapped TypeScript type everywhere;
+        // it must not be declared (nor pull in its own field types) even if the project also
+        // defines a struct of that name.
+        let unmapped_structs: HashMap<String, StructInfo> = discovered_structs
+            .iter()
+            .filter(|(name, _)| {
+                !config
+                    .type_mappings
+                    .as_ref()
+                    .is_some_and(|mappings| mappings.contains_key(*name))
+            })
+            .map(|(name, info)| (name.clone(), info.clone()))
+            .collect();
+        let discovered_structs = &unmapped_structs;
+
         // Store known structs for reference
         self.collector.known_structs = discovered_structs.clone();
 
